@@ -133,14 +133,15 @@ Parse(kind, fmt, s, enum) ==
 \* ---------------------------------------------------------------- cases of harness module "defval"
 \*  op = "rt"     kind, fmt, v (enum kinds: enum, idx; v = the number), hs = 1 iff str is the specification's text
 \*     demanded: Marshal succeeds, Unmarshal(Marshal(v)) = Canon(v); Unmarshal(str) = Canon(v) when hs = 1;
-\*     for fmt = "desc" the default survives NewFile (d1), ToFileDescriptorProto + NewFile (d2)
-\*  op = "sweep32" a stratum of float32 patterns (sign, exp, every stride-th mantissa): no pattern fails
+\*     for fmt = "desc" the default survives NewFile (d1), ToFileDescriptorProto + NewFile (d2), on a message
+\*     field and on an extension field (x1, x2)
+\*  op = "sweep32" a stratum of float32 patterns (sign, exponent ex, every stride-th mantissa): no pattern fails
 Expect(e) ==
   CASE e.op = "rt" ->
          LET v == Canon(e.kind, e.v) IN
          [merr |-> FALSE, backok |-> TRUE, back |-> v]
          @@ (IF e.hs = 1 THEN [parsedok |-> TRUE, parsed |-> v] ELSE [merr |-> FALSE])
-         @@ (IF e.fmt = "desc" THEN [has |-> TRUE, d1 |-> v, d2 |-> v] ELSE [merr |-> FALSE])
+         @@ (IF e.fmt = "desc" THEN [has |-> TRUE, d1 |-> v, d2 |-> v, x1 |-> v, x2 |-> v] ELSE [merr |-> FALSE])
     [] e.op = "sweep32" -> [n |-> e.count, fails |-> <<>>]
 
 Has(o, k) == k \in DOMAIN o
